@@ -689,6 +689,56 @@ theorem C17_maxsplit_escape_example :
     splitWithEscape "a\\;b;c;d".toList [';'] 1 (some '\\') true = .ok ["a;b;c;d".toList] := by
   decide
 
+/-! ## maxsplit counts real cuts — open finding C17-j
+
+"With an escape character, a delimiter preceded by an odd run of escapes stays inside its item and
+the result never depends on neighbouring items … (maxsplit included)".  The reference `splitRef`
+(`Model/Esc.lean`) scans the characters once and counts only REAL cuts.  The code splits with
+`str.split(delimiter, maxsplit)` first, so an *escaped* delimiter among the first `maxsplit`
+occurrences uses up one split; the repair the code has for this case (`if maxsplit and maxsplit+1 <
+len(separated_items) and delimiter in separated_items[-1]`: re-split the remainder once) can never
+fire for `maxsplit ≥ 1` — the list has at most `maxsplit + 1` items.  Whether the boundary `c;d` is
+cut then depends on an escape in a NEIGHBOURING item. -/
+
+/-- the statement as the property reads (kept visible; **false** on the pinned code:
+`C17_split_maxsplit_real_cuts_cex`) -/
+def C17_split_maxsplit_real_cuts_stmt : Prop :=
+  ∀ (s d : Str) (m : Nat) (e : Char) (tr : Bool), d ≠ [] →
+    splitWithEscape s d m (some e) tr = splitRef s d m (some e) tr
+
+/-- **C17-j (open).**  Smallest witness `'\\;;'`, maxsplit 1: one real cut is expected
+(`[';', '']`), the code returns the text unsplit (`[';;']`).  The same text without the escaped
+delimiter in the neighbouring item, `';'`, is cut.  The witnesses of the finding: `'a\\;b;c;d'` with
+maxsplit 2 gives `['a;b', 'c;d']` (two real cuts expected: `['a;b', 'c', 'd']`), with maxsplit 1
+`['a;b;c;d']` (expected `['a;b', 'c;d']`). -/
+theorem C17_split_maxsplit_real_cuts_cex :
+    splitWithEscape ['\\', ';', ';'] [';'] 1 (some '\\') true = .ok [[';', ';']] ∧
+    splitRef ['\\', ';', ';'] [';'] 1 (some '\\') true = .ok [[';'], []] ∧
+    splitWithEscape [';'] [';'] 1 (some '\\') true = .ok [[], []] ∧
+    splitWithEscape ['a', '\\', ';', 'b', ';', 'c', ';', 'd'] [';'] 2 (some '\\') true
+      = .ok [['a', ';', 'b'], ['c', ';', 'd']] ∧
+    splitRef ['a', '\\', ';', 'b', ';', 'c', ';', 'd'] [';'] 2 (some '\\') true
+      = .ok [['a', ';', 'b'], ['c'], ['d']] ∧
+    splitRef ['a', '\\', ';', 'b', ';', 'c', ';', 'd'] [';'] 1 (some '\\') true
+      = .ok [['a', ';', 'b'], ['c', ';', 'd']] ∧
+    ¬ C17_split_maxsplit_real_cuts_stmt := by
+  refine ⟨by decide, by decide, by decide, by decide, by decide, by decide, ?_⟩
+  intro h
+  have := h ['\\', ';', ';'] [';'] 1 '\\' true (by decide)
+  revert this
+  decide
+
+-- outside the class of C17-j the code and the reference agree (no maxsplit; no escaped delimiter
+-- among the first maxsplit delimiters; delimiter of two characters; escape-free text)
+example : splitWithEscape ['a', '\\', ';', 'b', ';', 'c', ';', 'd'] [';'] 0 (some '\\') true
+    = splitRef ['a', '\\', ';', 'b', ';', 'c', ';', 'd'] [';'] 0 (some '\\') true := by decide
+example : splitWithEscape ['a', ';', 'b', '\\', ';', 'c', ';', 'd'] [';'] 1 (some '\\') true
+    = splitRef ['a', ';', 'b', '\\', ';', 'c', ';', 'd'] [';'] 1 (some '\\') true := by decide
+example : splitRef ['a', '!', '!', ':', ':', 'b', '!', ':', ':', 'c'] [':', ':'] 0 (some '!') true
+    = .ok [['a', '!'], ['b', ':', ':', 'c']] := by decide
+example : splitRef ['a', ';', 'b', ';', 'c'] [';'] 1 (some '\\') false = .ok [['a'], ['b', ';', 'c']] := by decide
+example : splitRef ['a'] [] 1 (some '\\') false = .error .ValueError := by decide
+
 /-! ## non-vacuity -/
 
 example : splitWithEscape "\\\\IT\\EM1\\;\\\\IT\\EM2;\\ITE\\\\M3\\\\;ITE\\M4\\\\".toList [';'] 0 (some '\\') true
